@@ -125,7 +125,7 @@ def site(tree):
         if b"\t" in b or b"\n" in b:
             continue
         tree.write(b"names/" + b, b"x\n")
-    tree.write("mixed/gophermap", b"Title line\n0Doc\tdoc.txt\n1Dir\t/docs\n1Far\t/x y\texample.org\t7070\nhWeb\tURL:http://example.org/a?b=c&d\n7Search\t/search here\n\n0caf\xc3\xa9 \xff\t/names/\xae.txt\n")
+    tree.write("mixed/gophermap", b"Title line\n0Doc\tdoc.txt\n1Dir\t/docs\n1Far\t/x y\texample.org\t7070\n1Mirror (host only)\t/pub/mirror\tgopher.example.net\n1Other port here\t/alt\t\t7071\nhWeb\tURL:http://example.org/a?b=c&d\nhMail the admin\tURL:mailto:admin@example.org\nhCall\tURL:tel:+15550100\n7Search\t/search here\n\n0caf\xc3\xa9 \xff\t/names/\xae.txt\n")
     tree.write("mixed/doc.txt", b"d\n")
     tree.write("mixed/doc.txt.abstract", b"An abstract\nwith two lines\n")
     return ["/", "/docs", "/names", "/mixed", "/map", "/pics", "/mail", "/mail/box.mbox", "/menu.gophermap", "/link-to-docs",
